@@ -4,6 +4,7 @@ import (
 	"math/rand"
 	"strings"
 	"sync"
+	"unicode"
 )
 
 // ---------------------------------------------------------------------------------------------
@@ -20,6 +21,8 @@ type gnode struct {
 func escAttr(s string) string {
 	s = strings.ReplaceAll(s, "&", "&amp;")
 	s = strings.ReplaceAll(s, "\"", "&quot;")
+	// a literal CR would be normalised to LF by the HTML input stream; the character reference survives
+	s = strings.ReplaceAll(s, "\r", "&#13;")
 	return s
 }
 
@@ -64,60 +67,188 @@ var (
 	classPool  = []string{"c", "c", "d", "d", "e", "C", "1a", "a.b", "é", "-x", "c-d", "x", "\U0001d4b3", "c\u0001", "-1"}
 	idPool     = []string{"i", "i", "j", "I", "1", "x:y", "é", "c\td"}
 	attrNames  = []string{"k", "k", "k", "k", "data-k", "a.b"}
-	valuePool  = []string{"", "c", "c", "C", "d", "cd", "dc", "c-d", "c d", " c", "d c ", "c\td", " ", "  ", "é", "c.d", "cdc", "-c", "d  c", "k", "s", "cé", "c\"d", "c\\d", "c\nd"}
-	classSeps  = []string{" ", " ", "  ", "\t", "\n", " \f"}
+	valuePool  = []string{"", "c", "c", "C", "d", "cd", "dc", "c-d", "c d", " c", "d c ", "c\td", " ", "  ", "é", "c.d", "cdc", "-c", "d  c", "k", "s", "cé", "c\"d", "c\\d", "c\nd", "\u00a0", "\u3000 ", "c\rd", "d\r\nc"}
+	classSeps  = []string{" ", " ", "  ", "\t", "\n", " \f", "\r", "\f", "\r\n"}
 	wsTexts    = []string{" ", "\n", "\t \n", "\f", "  "}
 	plainTexts = []string{"t", "x y", " t ", "0"}
-	oddWSTexts = []string{" ", "\v", "\u0085", "   ", " "}
+	oddWSTexts = []string{"\u00a0", "\v", "\u0085", " \u00a0  ", "\u2003", "\u3000", " \u2028", "\u1680", "\u200b", "\ufeff", "\x1c", "\u202f\n"}
 )
 
 func pick(r *rand.Rand, l []string) string { return l[r.Intn(len(l))] }
+
+// ---------------------------------------------------------------------------------------------
+// pseudo-spaces: code points that are NOT white space for CSS / HTML (only SPACE, TAB, LF, FF, CR
+// are), but that a careless implementation treats as such:
+//   - everything Go's unicode.IsSpace / strings.Fields / strings.TrimSpace call white space
+//     (U+000B, U+0085, U+00A0, U+1680, U+2000–U+200A, U+2028, U+2029, U+202F, U+205F, U+3000),
+//   - the information separators U+001C–U+001F (white space for Python's str.split and Java),
+//   - invisible look-alikes: U+180E, U+200B ZERO WIDTH SPACE, U+FEFF.
+// Inside an attribute value they are ordinary characters of a word; inside a class name / operand
+// they are ordinary characters of the name.
+
+func isCSSSpaceRune(c rune) bool { return c == ' ' || c == '\t' || c == '\n' || c == '\f' || c == '\r' }
+
+// isGoSpaceNotCSS: white space for Go's unicode tables, not for CSS.
+func isGoSpaceNotCSS(c rune) bool { return unicode.IsSpace(c) && !isCSSSpaceRune(c) }
+
+var pseudoSpaces = func() []string {
+	var out []string
+	for c := rune(1); c <= 0xffff; c++ {
+		if isGoSpaceNotCSS(c) {
+			out = append(out, string(c))
+		}
+	}
+	if len(out) != 20 {
+		panic("c05: unexpected unicode.IsSpace table")
+	}
+	return append(out, "\x1c", "\x1d", "\x1e", "\x1f", "\u180e", "\u200b", "\ufeff")
+}()
+
+// hasPseudoSpace: s contains one of the characters above.
+func hasPseudoSpace(s string) bool {
+	for _, c := range s {
+		if c == '\v' || (c >= 0x1c && c <= 0x1f) || (c >= 0x80 && (isGoSpaceNotCSS(c) || c == 0x180e || c == 0x200b || c == 0xfeff)) {
+			return true
+		}
+	}
+	return false
+}
+
+// pickPS: NO-BREAK SPACE (what real documents contain) four times out of ten, else any pseudo-space.
+func pickPS(r *rand.Rand) string {
+	if r.Intn(10) < 4 {
+		return "\u00a0"
+	}
+	return pick(r, pseudoSpaces)
+}
+
+// psCommon: the names both sides (attribute values and selectors) draw from half of the time, so that
+// a class selector / ~= operand holding a pseudo-space does meet an element having exactly that word.
+var psCommon = []string{"c\u00a0d", "c\u00a0d", "c\u00a0", "\u00a0d", "\u00a0", "c\u2003d", "c\vd", "d\u0085c", "c\u3000", "c\u200bd", "c\x1cd", "\ufeffc", "C\u00a0D"}
+
+// psName returns ONE word (no CSS white space) containing a pseudo-space: w<ps>w, <ps>w, w<ps>, <ps>.
+func psName(r *rand.Rand, words []string) string {
+	switch x := r.Intn(100); {
+	case x < 50:
+		return pick(r, psCommon)
+	case x < 80:
+		return pick(r, words) + pickPS(r) + pick(r, words)
+	case x < 88:
+		return pickPS(r) + pick(r, words)
+	case x < 96:
+		return pick(r, words) + pickPS(r)
+	default:
+		return pickPS(r)
+	}
+}
+
+// psValue returns an attribute value of 1-3 words separated by real (CSS) white space, at least one of
+// which holds a pseudo-space: "c\u00a0d" (one word, not two), "c\u00a0 d" (words "c\u00a0" and "d"),
+// "c \u00a0 d" (three words) ...
+func psValue(r *rand.Rand, words []string) string {
+	n := 1 + r.Intn(3)
+	special := r.Intn(n)
+	var sb strings.Builder
+	if r.Intn(8) == 0 {
+		sb.WriteString(pick(r, classSeps))
+	}
+	for i := 0; i < n; i++ {
+		if i > 0 {
+			sb.WriteString(pick(r, classSeps))
+		}
+		if i == special || r.Intn(4) == 0 {
+			sb.WriteString(psName(r, words))
+		} else {
+			sb.WriteString(pick(r, words))
+		}
+	}
+	if r.Intn(8) == 0 {
+		sb.WriteString(pick(r, classSeps))
+	}
+	return sb.String()
+}
+
+var (
+	psWordsRich  = []string{"c", "c", "d", "d", "C", "e", "cd", "é", "k"}
+	psWordsPlain = []string{"c", "c", "d"}
+	// the forms the exhaustive selector alphabet looks for (.c\a0 d, [k~="c\a0 d"])
+	psFixedPlain = []string{"c\u00a0d", "c\u00a0d", "c\u00a0d c", "d\tc\u00a0d", "c\u00a0d\rd"}
+)
+
+// psAttrValue: an attribute value (class or word list) with pseudo-spaces.  plain = for the trees of
+// the exhaustive part, whose selector alphabet is small: half of the values are the fixed forms that
+// alphabet looks for.
+func psAttrValue(r *rand.Rand, rich bool) string {
+	if rich {
+		return psValue(r, psWordsRich)
+	}
+	if r.Intn(2) == 0 {
+		return pick(r, psFixedPlain)
+	}
+	return psValue(r, psWordsPlain)
+}
+
+// kValue: value of a k / data-k / a.b attribute.
+func kValue(r *rand.Rand, rich bool) string {
+	switch {
+	case rich && r.Intn(100) < 12, !rich && r.Intn(100) < 9:
+		return psAttrValue(r, rich)
+	case rich:
+		return pick(r, valuePool)
+	}
+	return pick(r, []string{"", "c", "C", "c d", "c-d", "dc", "cd", "d", "k", " c", "d\rc"})
+}
 
 // randAttrs gives an element its class / id / k / data-k attributes.
 func randAttrs(r *rand.Rand, rich bool) []rattr {
 	var out []rattr
 	if r.Intn(100) < 60 {
-		n := 1 + r.Intn(3)
-		var sb strings.Builder
-		if r.Intn(8) == 0 {
-			sb.WriteString(pick(r, classSeps))
-		}
-		for i := 0; i < n; i++ {
-			if i > 0 {
+		if (rich && r.Intn(100) < 14) || (!rich && r.Intn(100) < 10) {
+			// class list whose "separators" are partly pseudo-spaces: "c\u00a0d" is ONE class name
+			out = append(out, rattr{"class", psAttrValue(r, rich)})
+		} else {
+			n := 1 + r.Intn(3)
+			var sb strings.Builder
+			if r.Intn(8) == 0 {
 				sb.WriteString(pick(r, classSeps))
 			}
-			if rich {
-				sb.WriteString(pick(r, classPool))
-			} else {
-				sb.WriteString(pick(r, []string{"c", "d", "c", "d", "1a"}))
+			for i := 0; i < n; i++ {
+				if i > 0 {
+					sb.WriteString(pick(r, classSeps))
+				}
+				if rich {
+					sb.WriteString(pick(r, classPool))
+				} else {
+					sb.WriteString(pick(r, []string{"c", "d", "c", "d", "1a"}))
+				}
 			}
+			if r.Intn(8) == 0 {
+				sb.WriteString(pick(r, classSeps))
+			}
+			out = append(out, rattr{"class", sb.String()})
 		}
-		if r.Intn(8) == 0 {
-			sb.WriteString(pick(r, classSeps))
-		}
-		out = append(out, rattr{"class", sb.String()})
 	} else if r.Intn(20) == 0 {
-		out = append(out, rattr{"class", pick(r, []string{"", " "})})
+		out = append(out, rattr{"class", pick(r, []string{"", " ", "\u00a0", "\r"})})
 	}
 	if r.Intn(100) < 30 {
-		if rich {
+		switch {
+		case rich && r.Intn(100) < 8:
+			// an ID is the attribute value verbatim: no trimming, no splitting
+			out = append(out, rattr{"id", pick(r, []string{" i", "i ", "i\u00a0", "\u00a0i", "i\u00a0j", "i j", "i\u2003", "\vi"})})
+		case rich:
 			out = append(out, rattr{"id", pick(r, idPool)})
-		} else {
+		default:
 			out = append(out, rattr{"id", pick(r, []string{"i", "i", "j"})})
 		}
 	}
 	if r.Intn(100) < 55 {
-		if rich {
-			out = append(out, rattr{"k", pick(r, valuePool)})
-		} else {
-			out = append(out, rattr{"k", pick(r, []string{"", "c", "C", "c d", "c-d", "dc", "cd", "d", "k", " c"})})
-		}
+		out = append(out, rattr{"k", kValue(r, rich)})
 	}
 	if rich && r.Intn(100) < 20 {
-		out = append(out, rattr{"data-k", pick(r, valuePool)})
+		out = append(out, rattr{"data-k", kValue(r, rich)})
 	}
 	if rich && r.Intn(100) < 12 {
-		out = append(out, rattr{"a.b", pick(r, valuePool)})
+		out = append(out, rattr{"a.b", kValue(r, rich)})
 	}
 	if len(out) > 1 && r.Intn(2) == 0 {
 		r.Shuffle(len(out), func(i, j int) { out[i], out[j] = out[j], out[i] })
@@ -348,6 +479,8 @@ func exhOthers() []Simple {
 		// forms on which the pinned tree diverged (fixed since; kept in the exhaustive alphabet)
 		ciOp("=", "\u212a"), at("k", "^=", ""), at("k", "~=", ""), Simple{K: "never", N: "hover"}, lg("not", cx1(Simple{K: "never", N: "hover"})),
 		cl("1a"), at("k", "=", "c\"d"),
+		// word splitting: NO-BREAK SPACE is not a separator, "c\u00a0d" is one class name / one word
+		cl("c\u00a0d"), at("k", "~=", "c\u00a0d"),
 		cl("c"), cl("d"), idS("i"), idS("j"),
 		at("k", "", ""), at("k", "=", "c"), at("k", "~=", "c"), at("k", "|=", "c"), at("k", "^=", "c"), at("k", "$=", "c"), at("k", "*=", "c"),
 		ci, at("k", "=", ""), at("k", "|=", ""), at("k", "~=", "d"),
@@ -492,7 +625,7 @@ func exhSelectorSet(name string) []exhSel {
 var (
 	selClassPool = []string{"c", "c", "d", "d", "e", "C", "a.b", "é", "-x", "c-d", "zz", "x", "\U0001d4b3", "1a", "1a", "-1", "c\td", "c\u0001", "c\nd", "\u007f"}
 	selIDPool    = []string{"i", "i", "j", "I", "1", "x:y", "é", "zz", "c\td", "c\u0001"}
-	selTagPool   = []string{"div", "div", "span", "x-a", "x-a", "x-b", "section", "em", "body", "html", "zz", "svg"}
+	selTagPool   = []string{"div", "div", "span", "x-a", "x-a", "x-b", "section", "em", "body", "html", "zz", "svg", "x-a\u00a0"}
 	operandPool  = []string{"c", "c", "d", "C", "cd", "dc", "c-d", "c d", "-", "c-", " c", "d ", "é", "c.d", ".", "D", "zz", "cdc", "c\"d", "c\\d", "c\nd", "\"", "c'd\"", "\\", "\u00c9", "\u212a", "\u017f", "c\u00c9", "k", "s", "K", "S"}
 	pcNames      = []string{"first-child", "last-child", "only-child", "first-of-type", "last-of-type", "only-of-type"}
 	peNames      = []string{"before", "after", "first-line", "first-letter", "marker", "selection", "placeholder", "backdrop", "cue", "grammar-error", "spelling-error", "footnote-call", "footnote-marker"}
@@ -529,6 +662,9 @@ func (g *sgen) attrSimple() Simple {
 	}
 	for {
 		switch x := r.Intn(100); {
+		case x < 8:
+			// an operand containing a pseudo-space: one word for ~=, ordinary characters for the others
+			s.V = psName(r, psWordsRich)
 		case x < 70:
 			s.V = pick(r, operandPool)
 		case x < 88:
@@ -539,12 +675,15 @@ func (g *sgen) attrSimple() Simple {
 		if g.kdAttrBlank {
 			if r.Intn(3) != 0 {
 				s.Op = pick(r, []string{"^=", "$=", "*="})
-				s.V = pick(r, []string{" ", " ", "  "})
+				s.V = pick(r, []string{" ", " ", "  ", " ", "\u00a0", "\u00a0", "\u3000", "\u3000 "})
 			}
 			break
 		}
-		// open defect (attr-blank-value-substring): a white-space-only operand against a blank value
-		if (s.Op == "^=" || s.Op == "$=" || s.Op == "*=") && s.V != "" && wsOnly(s.V) {
+		// open defect (attr-blank-value-substring, attr-blank-value-unicode-space): the three substring
+		// operators refuse every attribute value that strings.TrimSpace finds blank; only an operand
+		// that is itself blank for TrimSpace (CSS white space and/or Go-only white space) can occur in
+		// such a value, so exactly those operands stay out of the asserted domain
+		if (s.Op == "^=" || s.Op == "$=" || s.Op == "*=") && s.V != "" && strings.TrimSpace(s.V) == "" {
 			continue
 		}
 		break
@@ -564,8 +703,14 @@ func (g *sgen) simple(depth int) Simple {
 	for {
 		switch x := r.Intn(100); {
 		case x < 18:
+			if r.Intn(100) < 9 {
+				return cl(psName(r, psWordsRich)) // ".c\a0 d": one class name
+			}
 			return cl(pick(r, selClassPool))
 		case x < 26:
+			if r.Intn(100) < 8 {
+				return idS(pick(r, []string{" i", "i ", "i\u00a0", "\u00a0i", "i\u00a0j", "i j", "i\u2003", "\vi"}))
+			}
 			return idS(pick(r, selIDPool))
 		case x < 48:
 			return g.attrSimple()
